@@ -790,11 +790,11 @@ mod e2e {
     pub struct Gl { pub contours: Vec<Vec<(i16, i16)>>, pub tuples: Vec<Tup> }
 
     impl Gl {
-        fn points(&self) -> Vec<(i16, i16)> { self.contours.iter().flatten().copied().collect() }
-        fn ends(&self) -> Vec<usize> { let mut v = vec![]; let mut n = 0; for c in &self.contours { n += c.len(); v.push(n - 1); } v }
+        pub fn points(&self) -> Vec<(i16, i16)> { self.contours.iter().flatten().copied().collect() }
+        pub fn ends(&self) -> Vec<usize> { let mut v = vec![]; let mut n = 0; for c in &self.contours { n += c.len(); v.push(n - 1); } v }
     }
 
-    fn describe(glyphs: &[Gl], axes: usize) -> String {
+    pub fn describe(glyphs: &[Gl], axes: usize) -> String {
         let mut out = format!("axes={axes}");
         for (i, g) in glyphs.iter().enumerate() {
             out += &format!(" | g{i} contours={:?}", g.contours);
@@ -848,7 +848,7 @@ mod e2e {
         t
     }
 
-    fn gen_glyph(rng: &mut Rng, axes: usize, pool: &mut Vec<Vec<(i16, Option<(i16, i16)>)>>, big: bool) -> Gl {
+    pub fn gen_glyph(rng: &mut Rng, axes: usize, pool: &mut Vec<Vec<(i16, Option<(i16, i16)>)>>, big: bool) -> Gl {
         let ncont = if big { 2 } else { 1 + rng.below(3) as usize };
         let mut contours = vec![];
         for _ in 0..ncont {
@@ -1210,11 +1210,276 @@ mod e2e {
     }
 }
 
+mod gdata {
+    //! Glyph variation DATA: `GlyphDeltas::new` / `GlyphVariations` / `Gvar::new` -> bytes vs
+    //! Model/GvarData.lean (byte-exact: every glyph's serialised data, the shared tuples and the
+    //! complete table), and read-fonts `GlyphVariationData` (`tuples()`, `peak()`,
+    //! `intermediate_*()`, `has_deltas_for_all_points()`, `deltas()`) on written and damaged data.
+    use super::*;
+    use super::e2e::{Gl, Tup};
+    use font_types::{F2Dot14, GlyphId};
+    use read_fonts::{FontData, FontRead};
+    use write_fonts::tables::gvar::{GlyphDelta, GlyphDeltas, GlyphVariations, Gvar, GvarInputError, Tent};
+
+    /// a glyph for `Gvar::new`: gid + tuples (tents may have any length: error paths)
+    #[derive(Clone, Debug)]
+    pub struct In { pub gid: u32, pub tuples: Vec<Tup> }
+
+    pub fn req(glyphs: &[In], axes: usize) -> String {
+        let mut out = format!("gd.build {axes}");
+        for g in glyphs {
+            out += &format!(" G{}", g.gid);
+            for t in &g.tuples {
+                out += " T";
+                for (p, i) in &t.tents { match i { Some((a, b)) => out += &format!(" t{p}:{a}:{b}"), None => out += &format!(" t{p}") } }
+                for (d, r) in t.deltas.iter().zip(&t.req) { out += &format!(" d{},{},{}", d.0, d.1, *r as u8); }
+            }
+        }
+        out
+    }
+
+    fn hex_or_dash(b: &[u8]) -> String { if b.is_empty() { "-".into() } else { hex(b) } }
+
+    /// `Gvar::new` on the real code: canonical response + the dumped table
+    pub fn build(glyphs: &[In], axes: usize) -> (String, Option<Vec<u8>>) {
+        let gl = glyphs.to_vec();
+        let r = catch(move || {
+            let vars: Vec<GlyphVariations> = gl.iter().map(|g| {
+                let tuples = g.tuples.iter().map(|t| {
+                    let tents = t.tents.iter().map(|(p, i)| Tent::new(F2Dot14::from_bits(*p), i.map(|(a, b)| (F2Dot14::from_bits(a), F2Dot14::from_bits(b))))).collect();
+                    let deltas = t.deltas.iter().zip(&t.req).map(|(d, r)| GlyphDelta::new(d.0, d.1, *r)).collect();
+                    GlyphDeltas::new(tents, deltas)
+                }).collect();
+                GlyphVariations::new(GlyphId::new(g.gid), tuples)
+            }).collect();
+            match Gvar::new(vars, axes as u16) {
+                Err(e) => Err(match e {
+                    GvarInputError::UnexpectedAxisCount { .. } => "UnexpectedAxisCount",
+                    GvarInputError::InconsistentGlyphAxisCount(_) => "InconsistentGlyphAxisCount",
+                    GvarInputError::InconsistentDeltaLength(_) => "InconsistentDeltaLength",
+                    GvarInputError::InconsistentTupleLengths(_) => "InconsistentTupleLengths",
+                }.to_string()),
+                Ok(gvar) => {
+                    let shared: Vec<u8> = gvar.shared_tuples.tuples.iter().flat_map(|t| t.values.iter().flat_map(|v| v.to_bits().to_be_bytes())).collect();
+                    let blobs: Vec<Vec<u8>> = gvar.glyph_variation_data_offsets.iter().map(|gd| {
+                        let b = write_fonts::dump_table(gd).unwrap();
+                        // an empty glyph serialises its (empty) header fields; the table writer skips it
+                        if b.len() <= 4 { vec![] } else { b }
+                    }).collect();
+                    let table = write_fonts::dump_table(&gvar).map_err(|e| format!("dump:{e}"))?;
+                    Ok((shared, blobs, table))
+                }
+            }
+        });
+        match r {
+            Err(_) => ("panic".into(), None),
+            Ok(Err(e)) => (format!("err:{e}"), None),
+            Ok(Ok((shared, blobs, table))) => (
+                format!("ok {} | {} | {}", hex_or_dash(&shared), blobs.iter().map(|b| hex_or_dash(b)).collect::<Vec<_>>().join(" "), hex(&table)),
+                Some(table)),
+        }
+    }
+
+    /// single-glyph table (long offsets) around arbitrary glyph data
+    pub fn craft_table(axes: usize, shared: &[u8], glyph: &[u8]) -> Vec<u8> {
+        let mut t: Vec<u8> = vec![0, 1, 0, 0];
+        t.extend_from_slice(&(axes as u16).to_be_bytes());
+        let n_shared = if axes == 0 { 0 } else { shared.len() / (2 * axes) };
+        t.extend_from_slice(&(n_shared as u16).to_be_bytes());
+        t.extend_from_slice(&((28 + glyph.len()) as u32).to_be_bytes());
+        t.extend_from_slice(&1u16.to_be_bytes());
+        t.extend_from_slice(&1u16.to_be_bytes());
+        t.extend_from_slice(&28u32.to_be_bytes());
+        t.extend_from_slice(&0u32.to_be_bytes());
+        t.extend_from_slice(&(glyph.len() as u32).to_be_bytes());
+        t.extend_from_slice(glyph);
+        t.extend_from_slice(&shared[..n_shared * 2 * axes]);
+        t
+    }
+
+    fn ints(v: &[i16]) -> String { if v.is_empty() { "-".into() } else { v.iter().map(|x| x.to_string()).collect::<Vec<_>>().join(",") } }
+
+    /// canonical read-back of glyph `gid` of `table`
+    pub fn read_canon(table: &[u8], gid: u32) -> String {
+        let r = catch(|| {
+            let gvar = read_fonts::tables::gvar::Gvar::read(FontData::new(table)).map_err(|_| "tableerr".to_string())?;
+            let vd = match gvar.glyph_variation_data(GlyphId::new(gid)) { Err(_) => return Ok("err".to_string()), Ok(None) => return Ok("none".to_string()), Ok(Some(v)) => v };
+            let tuples: Vec<_> = vd.tuples().collect();
+            let mut out = format!("{}", tuples.len());
+            for t in &tuples {
+                let peak: Vec<i16> = t.peak().values.iter().map(|v| v.get().to_bits()).collect();
+                let inter = match (t.intermediate_start(), t.intermediate_end()) {
+                    (Some(a), Some(b)) => format!("{}/{}", ints(&a.values.iter().map(|v| v.get().to_bits()).collect::<Vec<_>>()), ints(&b.values.iter().map(|v| v.get().to_bits()).collect::<Vec<_>>())),
+                    _ => "-".into() };
+                let ds: Vec<String> = t.deltas().take(300_000).map(|d| format!("{}:{}:{}", d.position, d.x_delta, d.y_delta)).collect();
+                out += &format!(" ; {} {} {} {}", ints(&peak), inter, t.has_deltas_for_all_points() as u8, if ds.is_empty() { "-".into() } else { ds.join(",") });
+            }
+            Ok::<_, String>(out)
+        });
+        match r { Ok(Ok(v)) => v, Ok(Err(e)) => e, Err(_) => "trap".into() }
+    }
+
+    fn be16(b: &[u8], o: usize) -> usize { ((b[o] as usize) << 8) | b[o + 1] as usize }
+    fn be32(b: &[u8], o: usize) -> usize { (be16(b, o) << 16) | be16(b, o + 2) }
+
+    /// byte-exact build correspondence + read-back correspondence (intact and damaged) for one font
+    pub fn check(s: &mut Session, rng: &mut Rng, glyphs: &[In], axes: usize, damage: usize) {
+        let (canon, table) = build(glyphs, axes);
+        let r = req(glyphs, axes);
+        s.count(&format!("gdata:build~{}", canon.split(' ').next().unwrap_or("")));
+        if r.len() < 60_000 { s.case("Gvar::new -> glyph variation data, shared tuples, table bytes", r, canon.clone()); }
+        else { s.count("gdata:build-too-long-skipped"); }
+        let Some(table) = table else { return };
+        let n = be16(&table, 12);
+        let n_shared = be16(&table, 6);
+        let sh_off = be32(&table, 8);
+        let shared = table[sh_off.min(table.len())..(sh_off + n_shared * 2 * axes).min(table.len())].to_vec();
+        let Ok(gvar) = read_fonts::tables::gvar::Gvar::read(FontData::new(&table)) else { s.oracle("gdata-table-reads", false, || r_short(glyphs, axes), || "Gvar::read failed".into()); return };
+        let mut sorted: Vec<&In> = glyphs.iter().collect();
+        sorted.sort_by_key(|g| g.gid);
+        for gid in 0..n {
+            let data = match gvar.data_for_gid(GlyphId::new(gid as u32)) { Ok(Some(d)) => d.as_bytes().to_vec(), _ => continue };
+            s.case("GlyphVariationData read-back (written)", format!("gd.read {axes} {} {}", hex_or_dash(&shared), hex(&data)), read_canon(&table, gid as u32));
+            // model-independent oracle: what was read is what was given
+            if let Some(g) = sorted.get(gid) {
+                let want = expect_read(g);
+                let got = read_canon(&table, gid as u32);
+                let parts: Vec<&str> = got.split(" ; ").collect();
+                let ok = parts[0] == want.len().to_string() && parts.len() == want.len() + 1
+                    && parts[1..].iter().zip(&want).all(|(p, (d, sp))| *p == d.as_str() || sp.as_deref() == Some(*p));
+                s.oracle("gdata-readback-equals-input", ok, || r_short(glyphs, axes), || format!("gid {gid}: read {got} expected {want:?}"));
+                for (p, (d, _)) in parts[1..].iter().zip(&want) { s.count(if *p == d.as_str() { "gdata:tuple-read-all-points" } else { "gdata:tuple-read-sparse" }); }
+            }
+            for _ in 0..damage {
+                let mut d = data.clone();
+                match rng.below(5) {
+                    0 => { let k = rng.below(d.len() as u64) as usize; d.truncate(k); }
+                    1 => { let k = rng.below(d.len() as u64) as usize; d[k] ^= 1 << rng.below(8); }
+                    2 => { let k = rng.below(d.len().min(8) as u64) as usize; d[k] = rng.below(256) as u8; }
+                    3 => { let k = rng.below(d.len() as u64) as usize; d[k] = *rng.pick(&[0u8, 0x80, 0xff, 0x7f, 0x3f, 0x40, 0xc0]); }
+                    _ => { let k = 1 + rng.below(6) as usize; let extra = rng.bytes(k); d.extend_from_slice(&extra); }
+                }
+                if d.is_empty() { continue; }
+                let t = craft_table(axes, &shared, &d);
+                let canon = read_canon(&t, 0);
+                s.oracle("gdata-read-total", canon != "trap", || hex(&d), || canon.clone());
+                s.count(&format!("gdata:damaged~{}", if canon == "err" { "err" } else if canon.starts_with("0") { "no-tuples" } else { "tuples" }));
+                s.case("GlyphVariationData read-back (damaged)", format!("gd.read {axes} {} {}", hex_or_dash(&shared), hex(&d)), canon);
+            }
+        }
+    }
+
+    fn r_short(glyphs: &[In], axes: usize) -> String { let r = req(glyphs, axes); if r.len() > 4000 { format!("{}…", &r[..4000]) } else { r } }
+
+    /// what reading glyph `g` back must give: per tuple the peak, the intermediate region iff some
+    /// tent is not implied by its peak, and all points or exactly the required ones with their
+    /// deltas (the choice between the two forms is the writer's size heuristic; the sparse form is
+    /// not acceptable when everything or nothing is required)
+    fn expect_read(g: &In) -> Vec<(String, Option<String>)> {
+        g.tuples.iter().map(|t| {
+            let peak: Vec<i16> = t.tents.iter().map(|x| x.0).collect();
+            let needs = t.tents.iter().any(|(p, i)| match i { Some((a, b)) => (*a, *b) != ((*p).min(0), (*p).max(0)), None => false });
+            let inter = if needs {
+                let st: Vec<i16> = t.tents.iter().map(|(p, i)| i.map(|x| x.0).unwrap_or((*p).min(0))).collect();
+                let en: Vec<i16> = t.tents.iter().map(|(p, i)| i.map(|x| x.1).unwrap_or((*p).max(0))).collect();
+                format!("{}/{}", ints(&st), ints(&en))
+            } else { "-".into() };
+            let nreq = t.req.iter().filter(|r| **r).count();
+            let listed = |all: bool| -> String {
+                let v: Vec<String> = t.deltas.iter().zip(&t.req).enumerate().filter(|(_, (_, r))| all || **r).map(|(k, (d, _))| format!("{k}:{}:{}", d.0, d.1)).collect();
+                if v.is_empty() { "-".into() } else { v.join(",") } };
+            let dense_form = format!("{} {} 1 {}", ints(&peak), inter, listed(true));
+            let sparse_form = format!("{} {} 0 {}", ints(&peak), inter, listed(false));
+            (dense_form, if nreq == t.req.len() || nreq == 0 { None } else { Some(sparse_form) })
+        }).collect()
+    }
+
+    pub fn from_gl(glyphs: &[Gl]) -> Vec<In> { glyphs.iter().enumerate().map(|(i, g)| In { gid: i as u32, tuples: g.tuples.clone() }).collect() }
+
+    /// small glyphs whose tuples draw their required-masks, peaks and delta vectors from tiny pools:
+    /// several candidate shared point sets with equal savings, peak tuples with equal use counts,
+    /// sparse/dense sizes within a byte of each other
+    fn gen_ties(rng: &mut Rng, axes: usize, npts: usize, peaks: &[Vec<(i16, Option<(i16, i16)>)>]) -> Vec<Tup> {
+        let nmask = 1 + rng.below(3) as usize;
+        let masks: Vec<Vec<bool>> = (0..nmask).map(|_| {
+            let style = rng.below(4);
+            (0..npts).map(|k| match style { 0 => k % 2 == 0, 1 => k < npts / 2, 2 => rng.chance(1, 3), _ => rng.chance(2, 3) }).collect() }).collect();
+        let ntup = 2 + rng.below(5) as usize;
+        (0..ntup).map(|_| {
+            let tents = if rng.chance(3, 4) { rng.pick(peaks).clone() } else {
+                (0..axes).map(|_| { let p = *rng.pick(&[0i16, 16384, -16384, 8192]); let i = match rng.below(6) {
+                    0 => Some((p.min(0), p.max(0))), 1 => Some((p.min(0), 16384.max(p))), 2 => Some((-16384i16.max(-16384).min(p), p.max(0))), 3 => Some((p / 2, p)), _ => None }; (p, i) }).collect() };
+            let req = rng.pick(&masks).clone();
+            let mag = *rng.pick(&[0i64, 1, 5, 100, 127, 128, 300, 32767]);
+            let deltas = (0..npts).map(|_| if rng.chance(1, 4) { (0, 0) } else { (rng.range(-mag, mag) as i16, rng.range(-mag, mag) as i16) }).collect();
+            Tup { tents, deltas, req, tol: None }
+        }).collect()
+    }
+
+    pub fn run(cfg: &Config, s: &mut Session, rng: &mut Rng) {
+        let n = if cfg.thorough() { 4000 } else { 160 };
+        for i in 0..n {
+            let axes = 1 + rng.below(3) as usize;
+            let ng = 1 + rng.below(4) as usize;
+            let mut pool = vec![];
+            let glyphs: Vec<Gl> = (0..ng).map(|_| e2e::gen_glyph(rng, axes, &mut pool, i % 40 == 39)).collect();
+            let mut ins = from_gl(&glyphs);
+            if rng.chance(1, 3) { rng.shuffle(&mut ins); }
+            check(s, rng, &ins, axes, 2);
+        }
+        let n = if cfg.thorough() { 6000 } else { 260 };
+        for _ in 0..n {
+            let axes = 1 + rng.below(2) as usize;
+            let npeak = 1 + rng.below(3) as usize;
+            let peaks: Vec<Vec<(i16, Option<(i16, i16)>)>> = (0..npeak).map(|_| (0..axes).map(|_| (*rng.pick(&[16384i16, -16384, 8192, 0]), if rng.chance(1, 5) { Some((0, 16384)) } else { None })).collect()).collect();
+            let ng = 1 + rng.below(3) as usize;
+            let mut gids: Vec<u32> = (0..ng as u32).collect();
+            rng.shuffle(&mut gids);
+            let ins: Vec<In> = gids.iter().map(|gid| { let npts = 4 + rng.below(10) as usize;
+                In { gid: *gid, tuples: if rng.chance(1, 8) { vec![] } else { gen_ties(rng, axes, npts, &peaks) } } }).collect();
+            check(s, rng, &ins, axes, 1);
+        }
+        // many explicit points: two-byte point counts, word point runs; many tuples
+        for k in 0..(if cfg.thorough() { 12 } else { 3 }) {
+            let npts = [200usize, 300, 700][k % 3];
+            let req: Vec<bool> = (0..npts).map(|i| i % 7 != 3 && !(300..600).contains(&i)).collect();
+            let tuples: Vec<Tup> = (0..2 + k % 2).map(|j| Tup { tents: vec![(16384, None)], deltas: (0..npts).map(|i| ((i as i16 % 50) - 25 + j as i16, if i % 3 == 0 { 300 } else { -2 })).collect(), req: req.clone(), tol: None }).collect();
+            check(s, rng, &[In { gid: 0, tuples }], 1, 2);
+        }
+        // input errors of Gvar::new
+        let ok = Tup { tents: vec![(16384, None)], deltas: vec![(1, 1); 5], req: vec![true; 5], tol: None };
+        let two_axes = Tup { tents: vec![(16384, None), (0, None)], deltas: vec![(1, 1); 5], req: vec![true; 5], tol: None };
+        let short = Tup { tents: vec![(16384, None)], deltas: vec![(1, 1); 4], req: vec![true; 4], tol: None };
+        for (gl, axes) in [
+            (vec![In { gid: 0, tuples: vec![ok.clone(), two_axes.clone()] }], 1usize),
+            (vec![In { gid: 0, tuples: vec![ok.clone(), short.clone()] }], 1),
+            (vec![In { gid: 0, tuples: vec![ok.clone()] }], 2),
+            (vec![In { gid: 0, tuples: vec![] }, In { gid: 1, tuples: vec![two_axes.clone()] }], 1),
+            (vec![In { gid: 1, tuples: vec![ok.clone(), short.clone()] }, In { gid: 0, tuples: vec![ok.clone(), two_axes.clone()] }], 1),
+            (vec![In { gid: 0, tuples: vec![two_axes.clone(), short.clone()] }], 2),
+            (vec![In { gid: 0, tuples: vec![] }], 1),
+            (vec![], 1),
+            (vec![In { gid: 0, tuples: vec![Tup { tents: vec![], deltas: vec![(1, 1)], req: vec![true], tol: None }] }], 0),
+        ] { check(s, rng, &gl, axes, 0); }
+        // Tent::requires_intermediate: every (peak, min, max) sign/equality combination
+        for p in [-16384i16, -8192, -1, 0, 1, 8192, 16384] { for a in [-16384i16, -8192, -1, 0, 1, 8192, 16384] { for b in [-16384i16, -8192, -1, 0, 1, 8192, 16384] {
+            let t = Tup { tents: vec![(p, Some((a, b)))], deltas: vec![(1, 2); 5], req: vec![true; 5], tol: None };
+            let (_, table) = build(&[In { gid: 0, tuples: vec![t] }], 1);
+            let Some(table) = table else { continue };
+            let dao = be32(&table, 16);
+            let has_inter = table.len() > dao + 6 && (table[dao + 6] & 0x40) != 0;
+            s.case("Tent::requires_intermediate", format!("gd.tent {p} {a} {b}"), (has_inter as u8).to_string());
+            s.oracle("intermediate-dropped-iff-implied", has_inter == ((a, b) != (p.min(0), p.max(0))), || format!("peak {p} min {a} max {b}"), || format!("intermediate region written: {has_inter}"));
+        } } }
+    }
+}
+
 fn run(cfg: &Config, s: &mut Session) {
     let mut rng = Rng::new(cfg.seed);
     packed::run(cfg, s, &mut rng);
     iup::run(cfg, s, &mut rng);
     reader::run(cfg, s, &mut rng);
+    gdata::run(cfg, s, &mut rng);
     e2e::run(cfg, s, &mut rng);
 }
 
